@@ -1,4 +1,5 @@
 import CheetahModel.Proofs.DiagProofs
+import CheetahModel.Proofs.HistProofs
 import CheetahModel.Proofs.SemLawful
 /-!
 # C20 — screen and BPM readings show the beam that passed them  (partial)
@@ -35,5 +36,15 @@ theorem reading_is_last_beam {B I : Type} (img : Option B → I) (ops : List (Sc
 theorem inactive_pass (k : Consts ℝ) (b : PBeam ℝ) (blocking act : Bool) :
     Elem.trackP k (.screen false blocking) b = b ∧ Elem.trackP k (.bpm act) b = b := by
   simp [Elem.trackP]
+
+
+/-- in histogram mode the image sums to the surviving charge that falls inside the screen (`pts` = (x, y, q·s)) -/
+theorem histogram_sums_to_charge_inside (s : ScreenP ℝ) (pts : List (ℝ × ℝ × ℝ)) :
+    ∑ r ∈ Finset.range s.effH, ∑ c ∈ Finset.range s.effW, histImage s pts r c = histTotal s pts :=
+  histImage_total s pts
+
+/-- pixel values are non-negative when the weights are -/
+theorem histogram_nonneg (s : ScreenP ℝ) (pts : List (ℝ × ℝ × ℝ)) (h : ∀ p ∈ pts, 0 ≤ p.2.2) (r c : ℕ) :
+    0 ≤ histImage s pts r c := histImage_nonneg s pts h r c
 
 end C20
